@@ -89,6 +89,11 @@ impl RpuDataHeader {
                 header.bl_bit_depth_minus8 = reader.get_ue()?;
 
                 let el_bit_depth_minus8 = reader.get_ue()?;
+                // Only 16 bits are representable: el_bit_depth_minus8 and ext_mapping_idc
+                ensure!(
+                    el_bit_depth_minus8 <= 0xFFFF,
+                    "el_bit_depth_minus8 with ext_mapping_idc should be <= 65535"
+                );
                 // 8 lowest bits
                 header.el_bit_depth_minus8 = el_bit_depth_minus8 & 0xFF;
 
